@@ -37,7 +37,13 @@ LEVEL_TEXT = ("theorems C05_* proved over R/C for every length N>=1, every sampl
               "homogeneous, identity for the unit response, offset-free, force_real = Hermitian symmetrisation "
               "with real output, Parseval => passive, whole-sample delay d<=N shifts and drops, N<d<2N wraps (K1). "
               "The same model text run on Float agrees with pyrex.signals on every sampled input to 1e-9*max|x|")
-LEVEL_NOTE = ("floating-point rounding and the FFT algorithm are not modelled (scipy.fft.fft/ifft/fftfreq = exact DFT); "
+LEVEL_NOTE = ("excluded by the property text ('2..thousands' samples, 'steps from 1e-10 s to 1 s'): N < 2 (the code "
+              "raises TypeError for N=1 - Signal.dt is None - and ValueError for N=0; the search checks that it does; "
+              "the model's sigDt is totalised with getD, so the theorems at N < 2 speak about the model only) and "
+              "dt = 0 (repeated sample times: the code silently returns NaN); theorems that need dt != 0 say so. "
+              "A pure delay is proved for whole-sample delays only; fractional delays (band-limited interpolation) "
+              "are covered by energy, linearity and shift oracles, not by a theorem. "
+              "floating-point rounding and the FFT algorithm are not modelled (scipy.fft.fft/ifft/fftfreq = exact DFT); "
               "filter_homog is stated for real scale factors (the real part is taken after filtering); "
               "delay_wraps_beyond_window is stated as the model behaves (out[k] = x[k+2N-d] for k < d-N, 0 for "
               "d-N <= k < N), which corrects the index range written in DESIGN.md; FunctionSignal with stacked filters sharing the force_real flag is "
@@ -578,10 +584,13 @@ def _check_case(run, case):
             # (buffer lengths half a step short of k samples: the code takes int(buffer/dt) and buffer % dt)
             fb.set_buffers(leading=max(0.0, (k1 - 0.5) * dte), trailing=max(0.0, (k2 - 0.5) * dte))
             fb.filter_frequencies(fn, force_real=fr)
-            full = t[0] + dte * np.arange(-k1, n + k2)
+            full = np.concatenate((t[0] - dte * np.arange(k1, 0, -1), t, t[-1] + dte * np.arange(1, k2 + 1)))
             ref = run_filter(ps, full, pulse(full), fn, fr)[k1:k1 + n]
             got = np.array(fb.values, dtype=float)
-            if len(got) != n or float(np.max(np.abs(got - ref))) > 1e-6 * vmax * gain:
+            # the analytic pulse is sampled on two independently built grids: their rounding differs by an ulp of |t|,
+            # i.e. by eps*|t|/dt of the pulse width - that, not 1e-6, is the slack
+            slack = 1e-9 * max(1.0, math.log2(n)) + 64 * np.finfo(float).eps * float(np.max(np.abs(full))) / dte
+            if len(got) != n or float(np.max(np.abs(got - ref))) > slack * vmax * gain:
                 fail("buffers", None, None, "a buffered FunctionSignal is not filtered on its extended grid "
                      "(leading %d, trailing %d samples)" % (k1, k2))
             # evaluate - filter - evaluate on one handle
@@ -750,6 +759,7 @@ def gen_case(run, nmax, i):
 
 
 def search(run, deep):
+    check_rejections(run)
     ncases = run.scale(150, 2500) if not deep else 2500
     nmax = 4096
     for i in range(ncases):
@@ -767,6 +777,27 @@ def search(run, deep):
         if "d" in case:
             run.count("search_delay_d<=N" if case["d"] <= case["N"] else "search_delay_d>N")
         check_case(run, case)
+
+
+def check_rejections(run):
+    """inputs outside the property's quantifier that the implementation must REJECT rather than answer with garbage:
+    a one-sample signal has no sampling step (TypeError), an empty one cannot be transformed (ValueError)"""
+    ps = pyrex_mod()
+    for name, times, vals, exc in (("N=1", [0.0], [1.0], TypeError), ("N=0", [], [], ValueError)):
+        run.case({"reject": name}, nontrivial=False)
+        try:
+            sig = ps.Signal(times, vals)
+            sig.filter_frequencies(resp_fn("const", 0.5, 0.0))
+            run.fail_input("filter-not-rejected", {"N": len(vals), "dt": 1.0, "t0": 0.0, "values": vals,
+                                                   "resp": ["const", 0.5, 0.0], "force_real": False,
+                                                   "oracle": "reject"},
+                           observed=[float(v) for v in sig.values], expected=exc.__name__,
+                           what="a signal with %s samples was filtered instead of being rejected" % name)
+        except exc:
+            run.count("rejected_" + name)
+        except Exception as e:      # noqa: BLE001
+            run.notes.append("filter of a signal with %s raises %r (expected %s)" % (name, e, exc.__name__))
+            run.count("rejected_otherwise_" + name)
 
 
 def known_probes(run):
